@@ -120,10 +120,32 @@ func (w *World) doSetKeys(in Intent) {
 		if in.Op == "rotate_orch_badsig" {
 			signKey = ext.DetEthKey(label + "-other")
 		}
+	case "share_orch", "self_orch": // fresh key; the orchestrator is the one this validator uses on ANOTHER chain / its own operator account
+		if in.V >= 100 {
+			return
+		}
+		l2 := fmt.Sprintf("%s-sh%d", label, in.Pick)
+		key = ext.DetEthKey(l2)
+		signKey = key
+		extAddr = eip55(ext.KeyAddr(key))
+		if in.Op == "self_orch" {
+			orch = oper
+		} else {
+			other := Chains[in.Pick%len(Chains)]
+			cur, ok := w.currentOrchOf(other, valAddr)
+			if !ok || other == chain {
+				return
+			}
+			orch = cur
+		}
 	case "steal_orch":
 		o := w.val(in.Pick)
 		if oo, ok := o.Orch[chain]; ok {
 			orch = oo
+		}
+		// the victim's CURRENT orchestrator on this chain, whatever it registered last
+		if cur, ok := w.currentOrchOf(chain, o.Oper.ValAddr()); ok {
+			orch = cur
 		}
 		l2 := fmt.Sprintf("%s-so%d", label, in.Pick)
 		key = ext.DetEthKey(l2)
@@ -278,4 +300,18 @@ func (w *World) doConfirmFuzz(in Intent) {
 	}
 	w.Submit("confirm", signer, in.Net, map[string]string{"chain": msgChain, "val": strconv.Itoa(v.Idx), "mut": in.Mut},
 		&mhub2types.MsgSubmitExternalTxConfirmation{Confirmation: any, Signer: signer.Addr.String(), ChainId: msgChain})
+}
+
+// currentOrchOf reads the hub's registry: the orchestrator account currently bound to a validator on a chain.
+func (w *World) currentOrchOf(chain string, val sdk.ValAddress) (*hub.Account, bool) {
+	valExt, _, extOrch := w.ReadState().DelegateIndexes(chain)
+	e, ok := valExt[string(val)]
+	if !ok {
+		return nil, false
+	}
+	o, ok := extOrch[e]
+	if !ok || len(o) != 20 {
+		return nil, false
+	}
+	return &hub.Account{Addr: sdk.AccAddress([]byte(o))}, true
 }
